@@ -115,7 +115,8 @@ Lemma m_run_op v outs st o :
   Mq lb v st -> wp true (M lb) (run_op c (v, outs) o) st (fun x st' => Mq lb (fst (fst x)) st').
 Proof.
   intros HM. destruct o as [x| |k oc|]; cbn [run_op].
-  - destruct (would_wait c v x); [cbn [wp fst]; exact HM|].
+  - destruct (too_large c x); [cbn [wp fst]; exact HM|].
+    destruct (would_wait c v x); [cbn [wp fst]; exact HM|].
     apply wp_bind. eapply wp_mono; [intros s0 Hs0; exact Hs0| |apply (m_put v st x HM)].
     intros y st' (H & _). cbn [wp fst]. exact H.
   - apply wp_bind. unfold readQ. destruct (stopped v); [cbn [wp fst snd]; exact HM|].
